@@ -321,6 +321,8 @@ theorem C18_area_ochiHubble (wp1 wp2 Hs1 Hs2 l1 l2 : ℝ) (h1 : 0 < wp1) (h2 : 0
   have i2 := (integrableOn_rpow_exp _ l2 ha2 hl2).const_mul
     (((4 * l2 + 1) / 4 * wp2 ^ 4) ^ l2 / Real.Gamma l2 * Hs2 * Hs2)
   unfold ochiHubbleSpectrum
+  -- the early return for an underflowed cut-off is dead at the reals
+  simp only [exp_real, eqb_exp_lit_zero, cond_false]
   simp only [lit_real, npow_real, exp_real, rpow_real, gamma_real, Nat.cast_ofNat, Nat.cast_one,
     pow_zero, div_one]
   have hc : ∫ w in Ioi (0:ℝ),
